@@ -940,6 +940,7 @@ def rfcNextTick (cfg : Cfg) (s : St) : TickInput → Option State
                                                                -- both are K8 and excluded from `tick_conforms_partial`
   | .cmdDisconnect => rfcTable cfg.delayOpen s.dop s.state 2   -- a stop command is ManualStop (Event 2)
   | .cmdKeepalive => some s.state                              -- no FSM event
+  | .cmdDisconnectWith _ => rfcTable cfg.delayOpen s.dop s.state 2   -- a stop command, whatever reason it names
 
 /-- K8, the recorded deviation of `tick` itself: it sets `State::Connect` when `handle_msg`
 returned `Err`, when the connection was closed and when `read_frame` failed (malformed frame, peer
@@ -995,6 +996,14 @@ theorem tick_conforms_partial (cfg : Cfg) (s s' : St) (t : TickInput) (ok : Bool
     rw [← h1, exec_state]
     simp only [rfcNextTick, cmdDisconnectActs, finalState]
     cases s.state <;> rfl
+  | cmdDisconnectWith r =>
+    -- the same tail after `disconnect(reason)`: Idle from every state, whatever the reason
+    simp only [tickStep] at h
+    injection h with h
+    injection h with h1
+    rw [← h1, exec_state]
+    simp only [rfcNextTick, cmdDisconnectTail, finalState]
+    cases s.state <;> rfl
   | direct i =>
     simp only [tickStep] at h
     injection h with h
@@ -1038,6 +1047,45 @@ theorem cmd_disconnect_cease (cfg : Cfg) (s s' : St) (ok : Bool) (outs : List Ou
     exact exec_notifs cfg defaultOpen s cmdDisconnectActs (6, 2) (by simp [cmdDisconnectActs, notifsOf, Reason.notif])
   · rw [← h1, exec_state]; simp [cmdDisconnectActs, finalState]
 
+/-- **Clause 2 for `Command::Disconnect(reason)` with the other reasons that carry a NOTIFICATION**
+(ConnectionRejected, Reconfiguration, Deconfigured: Cease 6/5, 6/6, 6/3; HoldTimerExpired: 4/0 - and the
+reasons the arms of `handle_event` use, which the command channel accepts too): in EVERY state the
+NOTIFICATION of the reason is sent, the connection is released and the FSM is left in Idle. -/
+theorem cmd_disconnect_with_notifies (cfg : Cfg) (s s' : St) (r : Reason) (ok : Bool) (outs : List Out)
+    (h : tickStep cfg s (.cmdDisconnectWith (some r)) = .res (.next s' ok outs)) :
+    s'.conn = false ∧ Out.pduNotification r.notif.1 r.notif.2 ∈ outs ∧ s'.state = .idle ∧ ok = true := by
+  simp only [tickStep] at h
+  injection h with h
+  injection h with h1 h2 h3
+  refine ⟨?_, ?_, ?_, h2.symm⟩
+  · rw [← h1, exec_conn]; simp [execAct]
+  · rw [← h3]; simp [execAct]
+  · rw [← h1, exec_state]; simp [cmdDisconnectTail, finalState]
+
+/-- the three administrative reasons are Cease NOTIFICATIONs (RFC 4486 subcodes 5, 6, 3) -/
+theorem cmd_disconnect_admin_is_cease :
+    Reason.rejected.notif = (6, 5) ∧ Reason.reconfiguration.notif = (6, 6) ∧ Reason.deconfigured.notif = (6, 3) :=
+  ⟨rfl, rfl, rfl⟩
+
+/-- `Command::Disconnect(DisconnectReason::Other)`: the code as it is sends NO NOTIFICATION (session.rs
+`DisconnectReason::Other => { //todo!(); debug!(..) }`); the connection is still released and the FSM left in
+Idle.  (Whether an unspecific stop should send a Cease is not decided by the property, which names the
+manual stop; the oracle abstains on this step, the model agreement pins the behaviour.) -/
+theorem cmd_disconnect_other_silent (cfg : Cfg) (s s' : St) (ok : Bool) (outs : List Out)
+    (h : tickStep cfg s (.cmdDisconnectWith none) = .res (.next s' ok outs)) :
+    s'.conn = false ∧ outs = [] ∧ s'.state = .idle ∧ ok = true := by
+  simp only [tickStep] at h
+  injection h with h
+  injection h with h1 h2 h3
+  refine ⟨?_, ?_, ?_, h2.symm⟩
+  · rw [← h1, exec_conn]; simp
+  · rw [← h3]; simp [exec, execAct, cmdDisconnectTail]
+  · rw [← h1, exec_state]; simp [cmdDisconnectTail, finalState]
+
+example : tickStep ⟨false, true, true, true, [], 90, [65001]⟩ ⟨.established, false, true, true, false, 0, true, none⟩
+    (.cmdDisconnectWith (some .reconfiguration))
+    = .res (.next ⟨.idle, false, false, false, false, 0, false, none⟩ true [.pduNotification 6 6]) := by decide
+
 /-- ... in the RFC's words: the stop command satisfies what 8.2.2 asks of ManualStop (Event 2) in
 the states that follow the sending of an OPEN. -/
 theorem cmd_disconnect_notif_conforms (cfg : Cfg) (s s' : St) (ok : Bool) (outs : List Out)
@@ -1066,6 +1114,7 @@ theorem tick_notif_conforms (cfg : Cfg) (s s' : St) (t : TickInput) (ok : Bool) 
   | readErr => simp [inputOfTick] at hi
   | cmdKeepalive => simp [inputOfTick] at hi
   | cmdDisconnect => simp [inputOfTick] at hi
+  | cmdDisconnectWith r => simp [inputOfTick] at hi
   | direct j =>
     simp only [inputOfTick, Option.some.injEq] at hi
     subst hi
